@@ -19,6 +19,16 @@ CHECKS = {
          "labeled+unlabeled <= 4 (quick) / 5 (thorough)", "4 C15"),
  "C20": ("bounded symbolic execution (z3) of opfython.math.general on symbolic label/prediction vectors and matrices against the definitions (LIA/NRA obligations)",
          "vectors of length <= 5, K <= 3 (quick) / <= 7, K <= 4 (thorough); normalize up to 3x2 / 5x2", "4 C20"),
+ "C09": ("bounded symbolic execution (z3) of the three predict implementations from an injected symbolic fitted state over a history of five predict calls with the same samples at different batch positions",
+         "n<=3 (quick) / n<=4 (thorough) training samples, k<=2/3, batches of 1-2 (thorough: 3)", "4 C09"),
+ "C12": ("bounded symbolic execution (z3) of KNNSubgraph.create_arcs (also after an earlier call), calculate_pdf (exp uninterpreted) and eliminate_maxima_height against declarative post-conditions",
+         "create_arcs n<=3 k<=4, n=4 k=1 (quick) / n=4 k<=5 (thorough); pdf n<=4/5", "4 C12"),
+ "C13": ("bounded symbolic execution (z3) of both _clustering implementations and propagate_labels from an arbitrary clean k-NN graph state (symbolic densities with ties, every neighbour choice)",
+         "n<=3 all k, n=4 k=1 (quick) / n=4 k<=3, n=5 k=1 (thorough)", "4 C13"),
+ "C14": ("bounded symbolic execution (z3) of KNNSupervisedOPF.predict / UnsupervisedOPF.predict from an injected symbolic fitted state against the exhaustive k-nearest max-min rule (exp uninterpreted)",
+         "n<=4, k<=2 (quick) / n<=5, k<=3 (thorough)", "4 C14"),
+ "C16": ("bounded symbolic execution (z3) of the k-selection loops with the criterion replaced by a nondeterministic stub (over-approximates every data set)",
+         "max_k<=5 (quick) / <=8 (thorough), all min_k", "4 C16"),
 }
 
 def main():
